@@ -263,6 +263,20 @@ func wantOf(docBytes []byte, op, key, ty string) string {
 	return w
 }
 
+// hang watchdog: generous until a request has hung once in this process (then the tree is known to
+// be broken and re-executions for shrinking should not cost half a minute each)
+var (
+	hungCfg *gconfig.Config
+	hangs   int
+)
+
+func hangAfter() time.Duration {
+	if hangs > 0 {
+		return 3 * time.Second
+	}
+	return 30 * time.Second
+}
+
 func (g *gcImpl) execCache(ws []string) (string, bool) {
 	if len(ws) >= 2 && ws[1] == "req" {
 		// gc req <op> <key> <type> <fresh>
@@ -275,12 +289,16 @@ func (g *gcImpl) execCache(ws []string) (string, bool) {
 		}
 		// a request that never returns (e.g. a memo bucket left locked by an earlier panic inside
 		// the fill callback) is reported as "hang" instead of stopping the whole run
+		if hungCfg == g.cfg {
+			return "hang", true // this config's memo table is already stuck
+		}
 		done := make(chan string, 1)
 		go func() { done <- f(g.cfg, ws[2], unesc(ws[3])) }()
 		select {
 		case out := <-done:
 			return out, true
-		case <-time.After(30 * time.Second):
+		case <-time.After(hangAfter()):
+			hungCfg, hangs = g.cfg, hangs+1
 			return "hang", true
 		}
 	}
@@ -289,6 +307,9 @@ func (g *gcImpl) execCache(ws []string) (string, bool) {
 		// with the same request on a fresh config
 		if g.cfg == nil {
 			return "bad-op", true
+		}
+		if hungCfg == g.cfg {
+			return "hang", true
 		}
 		var seed int64
 		var n int
@@ -318,7 +339,22 @@ func (g *gcImpl) execCache(ws []string) (string, bool) {
 				}
 			}(i)
 		}
-		wg.Wait()
+		// a panic inside the memo table's fill callback leaves its bucket locked and every later
+		// request for that bucket waits forever: report that as "hang" instead of deadlocking the run
+		done := make(chan struct{})
+		go func() { wg.Wait(); close(done) }()
+		select {
+		case <-done:
+		case <-time.After(hangAfter() * 3 / 2):
+			hungCfg, hangs = g.cfg, hangs+1
+			mu.Lock()
+			b := bad
+			mu.Unlock()
+			if b != "" {
+				return "hang:" + b, true
+			}
+			return "hang", true
+		}
 		if bad != "" {
 			return bad, true
 		}
